@@ -12,6 +12,12 @@
 (* Line references are to orquesta/conducting.py unless stated.                               *)
 EXTENDS Definition, Lifecycle
 
+(* Named deviations: places where the code's behaviour is not the behaviour the properties ask   *)
+(* for (open findings).  With the name in the set the operator does what the code does; without  *)
+(* it, what the intended design would do.  Conformance and the as-code model checks use AsCode.   *)
+CONSTANT Deviations
+AsCode == {"S2_join_restaged_by_late_arrival"}
+
 (* ------------------------------------------------------------------------------------------ *)
 (* small helpers                                                                              *)
 SetAt(s, i, v) == [s EXCEPT ![i] = v]
@@ -89,6 +95,9 @@ HasNext(d, S, t, r, evalJoin) ==
        IN /\ e.dst # "continue"
           /\ tid \in DOMAIN S.seq[li].next /\ S.seq[li].next[tid]
           /\ IsJoin(d, e.dst) => (~evalJoin \/ InboundStatus(d, S, e.dst, r) # "unsat")
+          \* intended design: a transition into a join instance that has already run does not count as work to do
+          /\ ~("S2_join_restaged_by_late_arrival" \notin Deviations /\ IsJoin(d, e.dst) /\ ~InCycle(d, e.dst)
+               /\ RecIdxOf(S, e.dst, r) # 0 /\ StagedIdx(S, e.dst, r) = 0)
 
 Unreachable(d, S) ==                                              \* get_unreachable_barriers l.158
   {i \in 1..Len(S.staged) :
@@ -331,6 +340,11 @@ StepEdge(d, acc, li, t, r, e, res) ==
   IF c = "F" THEN [acc EXCEPT !.S = S1]
   ELSE
   LET pr == PubRoll(e.pub, 1, res, cctx) IN
+  IF "S2_join_restaged_by_late_arrival" \notin Deviations /\ IsJoin(d, e.dst) /\ ~InCycle(d, e.dst)
+     /\ RecIdxOf(S1, e.dst, r) # 0 /\ StagedIdx(S1, e.dst, r) = 0
+  THEN \* intended design (S2 repaired): the decision is recorded, the join is not staged a second time
+       [acc EXCEPT !.S = S1]
+  ELSE
   IF ~pr.ok
   THEN [acc EXCEPT !.S = Req(d, LogErr(S1, "expr", t, r, tid, <<2>>), "failed").S]
   ELSE
